@@ -21,7 +21,7 @@ EXPLANATION = (
     "it); documented deterministic generators are exempt by an explicit table with one reason each; (R2) every "
     "jax.random.choice in generator / spawn / reset code that draws several positions at once (non-scalar shape) "
     "passes replace=False, so entities start on distinct cells, mines are distinct, etc. (one recorded exception); "
-    "(R3) directly sampled quantities lie in the declared box (= C01.R6). Not decided: connectivity of mazes, exact "
+    "(R3) directly sampled quantities lie in the declared box (= C01.R6); (R4) inside generator / spawn code, flat indices are unravelled with the number of columns and extent-named parameters receive the extent of their axis (axis-kind engine of C07, restricted to generator functions), so sampled positions land inside non-square grids. Not decided: connectivity of mazes, exact "
     "tiling of FlatPack/BinPack instances, solvability, parity, symmetric graphs -- all properties of runtime values.")
 
 DETERMINISTIC = {
@@ -168,7 +168,10 @@ def check(tier: str) -> Result:
     for o in r1.obligations:
         if o.rule == "C01.R6":
             res.add("C10.R3", o.site, o.func, o.construct, o.ok, o.detail, nontrivial=o.nontrivial)
-    res.analysed = {"generator_classes": len(gens), "random_generators_or_resets": n_random, "multi_sample_choice_sites": n_choice,
+    # ------------------------------------------------------------------ R4 axis-kind consistency inside generators
+    from . import axis_rules
+    n_axis = axis_rules.add_obligations(res, tree, "C10.R4", scope="generator")
+    res.analysed = {"generator_axis_sites": n_axis, "generator_classes": len(gens), "random_generators_or_resets": n_random, "multi_sample_choice_sites": n_choice,
                     "exempt_deterministic": [k for k, v in DETERMINISTIC.items() if v]}
     res.assumptions = ["data dependence on the key is necessary (not sufficient) for genuine randomness",
                        "deterministic generators are exempt by the explicit table in the checker"]
